@@ -71,6 +71,12 @@ var c01Extras = map[string]string{
 	// names that no loader has; they may be registered later in the history (by any route),
 	// after lookups of them have already failed or been ignored
 	"x_ign_inc":  "a{% include 'late_inc' ignore missing %}b{% include 'does_not_exist' ignore missing %}c",
+	// includes nested two levels (rendered in bursts: per-render bookkeeping must start afresh)
+	"x_nest_a": "A({% include 'x_nest_b' %})",
+	"x_nest_b": "B[{% include 'x_plain' %}{% include 'x_upper' with {'k': 1} only %}]",
+	// the same pattern with and without the case-insensitive flag, in separate templates
+	"x_re_cs": "{{ 'Hello' matches '/hello/' ? 'yes' : 'no' }}{{ 'abc' matches '/B/' ? 'yes' : 'no' }}",
+	"x_re_ci": "{{ 'Hello' matches '/hello/i' ? 'yes' : 'no' }}{{ 'abc' matches '/B/i' ? 'yes' : 'no' }}",
 	"x_late_ext": "{% extends 'late_layout' %}{% block b %}late-child{% endblock %}",
 }
 
@@ -227,6 +233,29 @@ func runC01(c C01Case) (c01Stats, error) {
 				runtime.GC()
 			}
 			gcSince++
+		case "burst":
+			if _, inLoader := en.spec.Templates[op.Name]; !inLoader {
+				continue
+			}
+			ctxI := op.Ctx % len(c.Ctxs)
+			want, err := pristine(OneShot{Eng: en.spec, Call: "render", Name: op.Name, Ctx: c.Ctxs[ctxI]})
+			if err != nil {
+				return st, fmt.Errorf("harness: %v", err)
+			}
+			for k := 0; k < op.N; k++ {
+				got := toOneShotRes(doCall(en.e, "render", op.Name, zooCtx(c.Ctxs[ctxI], 0)))
+				st.checked++
+				st.repeat++
+				st.nontrivial = true
+				if !got.Same(want) {
+					return st, fmt.Errorf("op %d: render %d of a burst of %d renders of %q on engine %d returned %v; a fresh engine in a fresh process returns %v", i, k+1, op.N, op.Name, op.Eng, got, want)
+				}
+				if got.Err {
+					failuresSince++
+				} else if en.cacheOn {
+					en.rendered[op.Name]++
+				}
+			}
 		case "render", "renderTo", "loadRender":
 			isRegisteredOnly := false
 			if _, inLoader := en.spec.Templates[op.Name]; !inLoader {
@@ -304,7 +333,7 @@ func genC01(t *rapid.T) C01Case {
 		eng := rapid.IntRange(0, nw-1).Draw(t, "eng")
 		names := sortedTemplateNames(c.Worlds[eng])
 		op := C01Op{Eng: eng}
-		switch k := rapid.IntRange(0, 23).Draw(t, "opkind"); {
+		switch k := rapid.IntRange(0, 24).Draw(t, "opkind"); {
 		case k == 20:
 			// replace the parent that a relative extends / include resolves to, then render the
 			// templates that name it
@@ -329,6 +358,12 @@ func genC01(t *rapid.T) C01Case {
 				C01Op{Op: "register", Eng: eng, Name: nm, Src: rapid.SampledFrom(c01LateSrcs).Draw(t, "latesrc"), N: rapid.IntRange(0, 2).Draw(t, "route")},
 				C01Op{Op: "render", Eng: eng, Name: rapid.SampledFrom([]string{"x_ign_inc", "x_late_ext", "x_missing_inc", nm}).Draw(t, "lateafter"), Ctx: eng})
 			continue
+		case k == 24:
+			// a burst of renders of one template (also of the regex pair in either order)
+			op.Op = "burst"
+			op.Name = rapid.SampledFrom([]string{"x_nest_a", "x_nest_a", "main", "x_sbx_inc", "x_re_cs", "x_re_ci"}).Draw(t, "burstname")
+			op.N = rapid.SampledFrom([]int{3, 60, 130}).Draw(t, "burstn")
+			op.Ctx = eng
 		case k == 22:
 			op.Op = "render"
 			op.Name = rapid.SampledFrom([]string{"x_meth_v", "x_meth_p"}).Draw(t, "methname")
@@ -397,7 +432,7 @@ func genC01(t *rapid.T) C01Case {
 	return c
 }
 
-const c01Rule = "histories of 5-40 (thorough 200) operations over 1-3 engines, each holding a template set from the structural generators (control flow, inheritance with parent(), include chains, macro libraries in five call forms, apply/spaceless) plus failing templates (syntax error, unclosed tag, include of a missing template, include of a broken template, division by zero) and a template above 4096 bytes; operations: Render / RenderTo / Load+Render, repeat of the previous call, ParseTemplate+Render of valid, invalid, small and > 4096-byte sources (also of other engines' sources), RegisterString / LoadFromCompiledData / RegisterTemplate (also of names whose lookup failed or was ignored earlier, of a name whose old handle is still held, and of the parent behind a relative extends/include), a struct reached by value and by pointer in separate templates, SetCache, SetDebug, runtime.GC once or twice; after every render the result is compared with a pristine engine in a fresh OS process; non-trivial = the checked render is preceded by a render of the same cached template, a failing render or a GC; distinct by history"
+const c01Rule = "histories of 5-40 (thorough 200) operations over 1-3 engines, each holding a template set from the structural generators (control flow, inheritance with parent(), include chains, macro libraries in five call forms, apply/spaceless) plus failing templates (syntax error, unclosed tag, include of a missing template, include of a broken template, division by zero) and a template above 4096 bytes; operations: Render / RenderTo / Load+Render, bursts of up to 130 renders of one template, repeat of the previous call, ParseTemplate+Render of valid, invalid, small and > 4096-byte sources (also of other engines' sources), RegisterString / LoadFromCompiledData / RegisterTemplate (also of names whose lookup failed or was ignored earlier, of a name whose old handle is still held, and of the parent behind a relative extends/include), a struct reached by value and by pointer in separate templates, SetCache, SetDebug, runtime.GC once or twice; after every render the result is compared with a pristine engine in a fresh OS process; non-trivial = the checked render is preceded by a render of the same cached template, a failing render or a GC; distinct by history"
 
 func TestC01History(t *testing.T) {
 	r := NewRec(t, "C01", c01Rule)
